@@ -907,7 +907,7 @@ func (p *prog) emitCall(w *fileBuf, li, si int) {
 		ef.noFile = true
 		p.levels[s.fnLvl].kind = fmt.Sprintf("LvFuncNoFile 0 %d", ef.table)
 		params := Pick(r, [][]string{{}, {"a"}, {"a", "b"}})
-		ef.w("(function(" + strings.Join(params, ",") + ") {\n")
+		ef.w("(function(" + strings.Join(params, ",") + "\n) {\n") // parser.ParseFunction's wrapper text
 		start := len(ef.b)
 		p.evalDepth++
 		p.body(ef, s.fnLvl, si+1, true, false)
@@ -1430,11 +1430,66 @@ func pinnedProgram(r *rand.Rand, k int) *prog {
 	case 7:
 		p.kind = 10
 		ef := p.newFile(0, "")
-		ef.w("(function() {\n")
+		ef.w("(function(\n) {\n")
 		p.raise = rat(mark(ef, "¤zz\n})"))
 		at := wrap("¤Function(\"zz\").call(null)")
 		g.events = append(g.events, ev("KIdent", at), ev("KDot", at))
 		p.levels = append(p.levels, &lvl{kind: fmt.Sprintf("LvNative %d", nameIDs["call"])}, &lvl{kind: fmt.Sprintf("LvFuncNoFile 0 %d", ef.table)})
+	case 13, 14, 15, 16, 17: // the routes through the Function constructor (text parsed: "(function(" + params + "\n) {\n" + body + "\n})")
+		nat := func(n string) *lvl { return &lvl{kind: fmt.Sprintf("LvNative %d", nameIDs[n])} }
+		ef := p.newFile(0, "")
+		ef.noFile = true
+		fn := &lvl{kind: fmt.Sprintf("LvFuncNoFile 0 %d", ef.table)}
+		switch k {
+		case 13: // parameters and a body of several lines
+			p.kind = 10
+			ef.w("(function(a,b\n) {\n")
+			p.raise = rat(mark(ef, "\n  var t = 1;\n  ¤zz\n})"))
+			at := wrap("¤Function(\"a\", \"b\", \"\\n  var t = 1;\\n  zz\").call(null)")
+			g.events = append(g.events, ev("KIdent", at), ev("KDot", at))
+			p.levels = append(p.levels, nat("call"), fn)
+		case 14: // a direct eval inside it, raising without a position of its own
+			p.kind = 21
+			ef.w("(function(\n) {\n")
+			fn.events = append(fn.events, ev("KIdent", ef.here()))
+			ef.w("eval(\"/* pad pad pad */ 1 instanceof 2\");\n})")
+			e2 := p.newFile(0, "")
+			fn.events = append(fn.events, fmt.Sprintf("EvEvalEnter %d", e2.table))
+			e2.w("/* pad pad pad */ ")
+			a2 := e2.here()
+			e2.w("1 instanceof 2")
+			p.raise = rnoat(a2)
+			at := wrap("¤Function(\"eval(\\\"/* pad pad pad */ 1 instanceof 2\\\");\").call(null)")
+			g.events = append(g.events, ev("KIdent", at), ev("KDot", at))
+			p.levels = append(p.levels, nat("call"), fn)
+		case 15: // in the middle of the chain: it calls a declared function
+			p.kind = 10
+			w.w("function f2(a, b) { ")
+			p.raise = rat(mark(w, "¤zz; }\n"))
+			ef.w("(function(\n) {\nreturn ")
+			fn.events = append(fn.events, ev("KIdent", ef.here()))
+			ef.w("f2(1)\n})")
+			at := wrap("¤Function(\"return f2(1)\").call(null)")
+			g.events = append(g.events, ev("KIdent", at), ev("KDot", at))
+			p.levels = append(p.levels, nat("call"), fn, &lvl{kind: "LvFunc 1020 0"})
+		case 16: // made with new, kept in a variable, called by name
+			p.kind = 10
+			ef.w("(function(a,b\n) {\n")
+			p.raise = rat(mark(ef, "¤zz\n})"))
+			g.events = append(g.events, ev("KIdent", mark(w, "var F = new ¤Function(\"a\", \"b\", \"zz\");\n")))
+			g.events = append(g.events, ev("KIdent", wrap("¤F(1)")))
+			p.levels = append(p.levels, fn)
+		default: // a callback defined inside it carries no file either
+			p.kind = 10
+			ef.w("(function(\n) {\n")
+			fn.events = append(fn.events, ev("KDot", ef.here()))
+			ef.w("[1].forEach(function cb1() { ")
+			p.raise = rat(mark(ef, "¤zz })\n})"))
+			at := wrap("¤Function(\"[1].forEach(function cb1() { zz })\").call(null)")
+			g.events = append(g.events, ev("KIdent", at), ev("KDot", at))
+			_, id := userName("cb", 1)
+			p.levels = append(p.levels, nat("call"), fn, nat("forEach"), &lvl{kind: fmt.Sprintf("LvFuncNoFile %d %d", id, ef.table)})
+		}
 	case 11: // this.f2(): f1 is an active call with a call site
 		p.kind = 10
 		w.w("function f1(a, b) {\n  return ")
@@ -2636,6 +2691,10 @@ func runC19(env *Env) {
 	for k := 2; k <= 11; k++ {
 		k := k
 		pins = append(pins, func() { genText(env, k) })
+	}
+	for k := 13; k <= 17; k++ {
+		k := k
+		pins = append(pins, func() { genProgram(env, k) })
 	}
 	pins = append(pins, func() { genProgram(env, 11) }, func() { genProgram(env, 12) }, func() { genShadow(env, 1) }, func() { genProgram(env, 10) }, func() { genEval(env, 4) }, func() { genEval(env, 44) }, func() { genOrder(env, 1) }, func() { genArg(env, 1) }, func() { genPos(env, 1) }, func() { genPos(env, 2) }, func() { genSyntax(env, 1) },
 		func() { genText(env, 1) }, func() { genFileSet(env, 1) })
